@@ -2,7 +2,7 @@
   C01 proofs, layer 5e: the concrete canonical update (`stepCanon`) and side condition (`GoodStep`) per section
   kind, and `step_ok`: every kind in `wholeKinds` has the uniform round-trip shape `StepRT`.
 -/
-import PyTough.Proofs.T2WholeKinds2
+import PyTough.Proofs.T2WholeKinds3
 namespace Proofs.T2
 open Py Model Model.T2 Proofs Proofs.Incon
 open Gen.Sections (Rec)
@@ -12,7 +12,8 @@ open Gen.Sections (Rec)
 /-- the section kinds composed so far -/
 def wholeKinds : List Str :=
   [c!"ROCKS", c!"PARAM", c!"MOMOP", c!"START", c!"NOVER", c!"ELEME", c!"CONNE", c!"GENER", c!"LINEQ", c!"SOLVR",
-   c!"RPCAP", c!"TIMES", c!"SELEC", c!"INCON", c!"INDOM"]
+   c!"RPCAP", c!"TIMES", c!"SELEC", c!"INCON", c!"INDOM",
+   c!"MULTI", c!"DIFFU", c!"FOFT", c!"GOFT", c!"COFT"]
 
 /-- what reading the section `kw` written for `d` does to the reader's object `d0` -/
 def stepCanon (d : T2Data) (kw : Str) (d0 : T2Data) : T2Data :=
@@ -33,6 +34,13 @@ def stepCanon (d : T2Data) (kw : Str) (d0 : T2Data) : T2Data :=
   else if kw = c!"SELEC" then { d0 with selection := d.selection.map canonSelection }
   else if kw = c!"INCON" then { d0 with incon := canonIncons (writtenIncons d) d0.incon }
   else if kw = c!"INDOM" then { d0 with indom := canonIndom d.indom d0.indom }
+  else if kw = c!"MULTI" then
+    { d0 with multi := match stripEos (canonDict (multiName d) d.multi d0.multi) with | .ok m => m | .error _ => d0.multi }
+  else if kw = c!"DIFFU" then { d0 with diffusion := canonDiffusion d.diffusion d0.diffusion }
+  else if kw = c!"FOFT" then { d0 with historyBlock := canonHistory d.historyBlock d0.blocks }
+  else if kw = c!"GOFT" then { d0 with historyGen := canonHistory d.historyGen d0.blocks }
+  else if kw = c!"COFT" then
+    { d0 with historyConn := d.historyConn.map (fun i => { isObj := false, n1 := cycleName i.n1, n2 := cycleName i.n2 }) }
   else d0
 
 /-- the side conditions of the section `kw` of `d` (those of its `section_roundtrip_…` theorem), on the reader's
@@ -64,6 +72,17 @@ def GoodStep (d : T2Data) (kw : Str) (d0 : T2Data) : Prop :=
     (∀ e ∈ writtenIncons d, ∃ ls, writeIncon mainTabs e = .ok ls)
   else if kw = c!"INDOM" then d.indom ≠ [] ∧ (∀ e ∈ d.indom, GoodIndom (fieldAt mainTabs c!"indom2" 0) e) ∧
     (∀ e ∈ d.indom, ∃ ls, writeIndomEntry mainTabs e = .ok ls)
+  else if kw = c!"MULTI" then d0.autough2 = d.autough2 ∧ d.multi ≠ [] ∧
+    (∃ lines, writeDictSection mainTabs c!"MULTI" (multiName d) d.multi = .ok lines) ∧
+    ∃ m, stripEos (canonDict (multiName d) d.multi d0.multi) = .ok m
+  else if kw = c!"DIFFU" then d.diffusion ≠ [] ∧ ∃ np,
+    d0.multi.get c!"num_components" = some (.int (Int.ofNat d.diffusion.length)) ∧
+    d0.multi.get c!"num_phases" = some (.int (Int.ofNat np)) ∧ (∀ row ∈ d.diffusion, row.length = np ∧ np ≤ 8) ∧
+    ∃ lines, writeDiffusion mainTabs d.diffusion = .ok lines
+  else if kw = c!"FOFT" then d.historyBlock ≠ [] ∧ ∀ i ∈ d.historyBlock, Visible i.name
+  else if kw = c!"GOFT" then d.historyGen ≠ [] ∧ ∀ i ∈ d.historyGen, Visible i.name
+  else if kw = c!"COFT" then d.historyConn ≠ [] ∧ (∀ i ∈ d.historyConn, Visible i.n1 ∧ i.n2.length = 5) ∧
+    d0.blocks = [] ∧ d0.conns = []
   else True
 
 theorem wholeKinds_sections : ∀ kw, kw ∈ wholeKinds → kw ∈ allSections := by decide +kernel
@@ -71,7 +90,7 @@ theorem wholeKinds_sections : ∀ kw, kw ∈ wholeKinds → kw ∈ allSections :
 theorem step_ok (d : T2Data) (kw : Str) (d0 : T2Data) (hk : kw ∈ wholeKinds) (hxp : XpFree d0) (hg : GoodStep d kw d0) :
     StepRT d kw d0 (stepCanon d kw d0) := by
   simp only [wholeKinds, List.mem_cons, List.not_mem_nil, or_false] at hk
-  rcases hk with rfl | rfl | rfl | rfl | rfl | rfl | rfl | rfl | rfl | rfl | rfl | rfl | rfl | rfl | rfl
+  rcases hk with rfl | rfl | rfl | rfl | rfl | rfl | rfl | rfl | rfl | rfl | rfl | rfl | rfl | rfl | rfl | rfl | rfl | rfl | rfl | rfl
   · exact stepRT_ROCKS d d0 hxp hg.1 hg.2
   · exact stepRT_PARAM d d0 hxp hg.1 hg.2.1 hg.2.2
   · exact stepRT_MOMOP d d0 hxp hg.1 hg.2
@@ -102,6 +121,17 @@ theorem step_ok (d : T2Data) (kw : Str) (d0 : T2Data) (hk : kw ∈ wholeKinds) (
     exact stepRT_SELEC d d0 hxp s hs hgs hw
   · exact stepRT_INCON d d0 hxp hg.1 hg.2.1 hg.2.2
   · exact stepRT_INDOM d d0 hxp hg.1 hg.2.1 hg.2.2
+  · obtain ⟨hfl, hne, hw, m, hm⟩ := hg
+    have : stepCanon d c!"MULTI" d0 = { d0 with multi := m } := by
+      show { d0 with multi := match stripEos (canonDict (multiName d) d.multi d0.multi) with | .ok m => m | .error _ => d0.multi } = _
+      rw [hm]
+    rw [this]
+    exact stepRT_MULTI d d0 hxp hfl hne hw m hm
+  · obtain ⟨hne, np, hnc, hnp, hrow, hw⟩ := hg
+    exact stepRT_DIFFU d d0 hxp hne np hnc hnp hrow hw
+  · exact stepRT_FOFT d d0 hxp hg.1 hg.2
+  · exact stepRT_GOFT d d0 hxp hg.1 hg.2
+  · exact stepRT_COFT d d0 hxp hg.1 hg.2.1 hg.2.2.1 hg.2.2.2
 
 theorem stepCanon_sections (d : T2Data) (kw : Str) (d0 : T2Data) : (stepCanon d kw d0).sections = d0.sections := by
   simp only [stepCanon, apply_ite T2Data.sections, canonParam, ite_self]
@@ -112,5 +142,81 @@ theorem canonFrom_sections (step : Str → T2Data → T2Data) (h : ∀ kw d0, (s
   induction kws with
   | nil => intro d0; simp [canonFrom]
   | cons kw kws ih => intro d0; simp only [canonFrom, ih, h, List.append_assoc, List.singleton_append]
+
+/-- a field that only the section `kw` sets, and sets to a value that does not depend on the reader's state: after
+    the sections `kws` it holds that value if `kw` is among them, else what it held before -/
+theorem canonFrom_proj {α : Type} (π : T2Data → α) (step : Str → T2Data → T2Data) (kw : Str) (v : α)
+    (hsec : ∀ x s, π { x with sections := s } = π x)
+    (hstep : ∀ k d0, π (step k d0) = if k = kw then v else π d0) :
+    ∀ (kws : List Str) (d0 : T2Data), π (canonFrom step kws d0) = if kw ∈ kws then v else π d0 := by
+  intro kws
+  induction kws with
+  | nil => intro d0; simp [canonFrom]
+  | cons k ks ih =>
+    intro d0
+    simp only [canonFrom, ih, hsec, hstep, List.mem_cons]
+    by_cases h1 : kw ∈ ks
+    · simp [h1]
+    · by_cases h2 : k = kw
+      · simp [h2]
+      · have h3 : ¬ kw = k := fun h => h2 h.symm
+        simp [h1, h2, h3]
+
+theorem stepCanon_rocks (d : T2Data) (k : Str) (d0 : T2Data) :
+    (stepCanon d k d0).rocks = if k = c!"ROCKS" then canonRocks d.rocks else d0.rocks := by
+  simp only [stepCanon, apply_ite T2Data.rocks, canonParam, ite_self]
+
+theorem stepCanon_blocks (d : T2Data) (k : Str) (d0 : T2Data) :
+    (stepCanon d k d0).blocks = if k = c!"ELEME" then canonBlocks d.blocks else d0.blocks := by
+  simp only [stepCanon, apply_ite T2Data.blocks, canonParam, ite_self]
+  by_cases h : k = c!"ELEME"
+  · subst h; simp (config := { decide := true }) only [if_true, if_false]
+  · simp only [h, if_false, ite_self]
+
+theorem stepCanon_conns (d : T2Data) (k : Str) (d0 : T2Data) :
+    (stepCanon d k d0).conns = if k = c!"CONNE" then canonConns d.conns else d0.conns := by
+  simp only [stepCanon, apply_ite T2Data.conns, canonParam, ite_self]
+  by_cases h : k = c!"CONNE"
+  · subst h; simp (config := { decide := true }) only [if_true, if_false]
+  · simp only [h, if_false, ite_self]
+
+theorem stepCanon_gens (d : T2Data) (k : Str) (d0 : T2Data) :
+    (stepCanon d k d0).gens = if k = c!"GENER" then canonGeners d.gens else d0.gens := by
+  simp only [stepCanon, apply_ite T2Data.gens, canonParam, ite_self]
+  by_cases h : k = c!"GENER"
+  · subst h; simp (config := { decide := true }) only [if_true, if_false]
+  · simp only [h, if_false, ite_self]
+
+theorem stepCanon_option (d : T2Data) (k : Str) (d0 : T2Data) :
+    (stepCanon d k d0).option = if k = c!"PARAM" then d.option else d0.option := by
+  simp only [stepCanon, apply_ite T2Data.option, canonParam, ite_self]
+  by_cases h : k = c!"PARAM"
+  · subst h; simp (config := { decide := true }) only [if_true, if_false]
+  · simp only [h, if_false, ite_self]
+
+theorem stepCanon_defaultIncons (d : T2Data) (k : Str) (d0 : T2Data) :
+    (stepCanon d k d0).defaultIncons = if k = c!"PARAM" then d.defaultIncons.map (canonV fdi) else d0.defaultIncons := by
+  simp only [stepCanon, apply_ite T2Data.defaultIncons, canonParam, ite_self]
+  by_cases h : k = c!"PARAM"
+  · subst h; simp (config := { decide := true }) only [if_true, if_false]
+  · simp only [h, if_false, ite_self]
+
+theorem stepCanon_moreOption (d : T2Data) (k : Str) (d0 : T2Data) :
+    (stepCanon d k d0).moreOption = if k = c!"MOMOP" then d.moreOption else d0.moreOption := by
+  simp only [stepCanon, apply_ite T2Data.moreOption, canonParam, ite_self]
+  by_cases h : k = c!"MOMOP"
+  · subst h; simp (config := { decide := true }) only [if_true, if_false]
+  · simp only [h, if_false, ite_self]
+
+theorem stepCanon_title (d : T2Data) (k : Str) (d0 : T2Data) : (stepCanon d k d0).title = d0.title := by
+  simp only [stepCanon, apply_ite T2Data.title, canonParam, ite_self]
+
+theorem canonFrom_keep {α : Type} (π : T2Data → α) (step : Str → T2Data → T2Data)
+    (hsec : ∀ x s, π { x with sections := s } = π x) (hstep : ∀ k d0, π (step k d0) = π d0) :
+    ∀ (kws : List Str) (d0 : T2Data), π (canonFrom step kws d0) = π d0 := by
+  intro kws
+  induction kws with
+  | nil => intro d0; rfl
+  | cons k ks ih => intro d0; simp only [canonFrom, ih, hsec, hstep]
 
 end Proofs.T2
